@@ -138,6 +138,8 @@ let handle check diff (toks : string list) (raw : string) : bool =
     end;
     (* the hypothesis of the reset-state theorems (C13_reset_state / _dag / _validators), evaluated on the received frame *)
     check "RS" short "true" (if HgReset.frame_shapeb f then "true" else "false");
+    (* the premises of the after-reset theorems (C13_after_reset_checked) that can be read off the received data *)
+    check "RP" short "true" (if HgReset.after_reset_premisesb b f cores then "true" else "false");
     (* 2. reset the victim's model from the received data *)
     let (ok, st') = HgReset.node_fast_forward victim.st b f cores in
     victim.st <- st';
